@@ -25,6 +25,10 @@ DriftOn == "DRIFT" \in DOMAIN IOEnv /\ IOEnv.DRIFT = "1"
 \* C11 corpus: elementary-function events are only compared across build configurations (determinism
 \* memo and relations); their accuracy contracts are the business of C13-C18
 MemoOnly == "MEMO_ONLY" \in DOMAIN IOEnv /\ IOEnv.MEMO_ONLY = "1"
+\* C01_ONLY=1: for the mathematical functions evaluate only the normalisation clause (C01) and the
+\* determinism memo, not the accuracy contracts (their own properties validate those; this makes
+\* long programs that feed function results back into other operations cheap to validate)
+C01Only == "C01_ONLY" \in DOMAIN IOEnv /\ IOEnv.C01_ONLY = "1"
 
 VARIABLE l
 tvars == <<l, regs, memo>>
@@ -88,6 +92,8 @@ TrCall == /\ l <= Len(Rec) /\ Rec[l].fam # "ctl" /\ l' = l + 1
                  meta == [sp |-> ev.sp, cfg |-> ev.cfg, d |-> ev.d]
                  fails == IF MemoOnly /\ ev.fam \in {"elem", "pow", "misc"} /\ ev.op # "fma"
                           THEN MemoFails(ev.op, A, r, meta) \cup RelationFails(ev.op, A, r)
+                          ELSE IF C01Only /\ ev.fam \in {"elem", "pow", "misc"} /\ ev.op # "fma"
+                          THEN C01Generic(ev.fam, ev.op, A, r) \cup MemoFails(ev.op, A, r, meta)
                           ELSE CallFails(ev.fam, ev.op, A, r, meta)
              IN /\ Note(ev, fails)
                 /\ (IF DriftOn /\ (Drifted(ev.op, A, r) \/ DriftNoOverlap(ev.op, A, r) \/ PowiDrift(ev.op, A, r))
